@@ -10,8 +10,6 @@ verus! {
 //@include prelude/sync.rs
 //@include prelude/vecdeque.rs
 
-pub assume_specification<T: ?Sized>[ Mutex::<T>::lock ](m: &Mutex<T>) -> (r: std::sync::LockResult<std::sync::MutexGuard<'_, T>>)
-    ensures r is Ok, guard_of(&r->Ok_0) == m;
 
 // effect witness (DESIGN 3.4): only notify_one can establish it
 pub uninterp spec fn notified(c: &Condvar) -> bool;
@@ -47,14 +45,13 @@ pub uninterp spec fn thread_added_for(t: Option<VerifTask>) -> bool;
 //@after 1 lock ( ) . unwrap ( )
         // monitor: the invariant holds when the lock is acquired (A-MUTEX + all other critical sections preserve it)
         proof { assume(pool_inv(gval(&queue), protected_count(&self.sharing.waiting_tasks))); }
-        let ghost q0 = gval(&queue)@;
 //@exit
         // O-SPAWN-INV: the invariant holds again when the guard is released ...
         proof { assert(pool_inv(gval(&queue), protected_count(&self.sharing.waiting_tasks))); }
         // ... and the connection was either given a fresh thread or queued with one waiter notified
         proof { assert(
-            (thread_added_for(Some(code)) && gval(&queue)@ == q0)
-            || (gval(&queue)@ == q0.push(code) && notified(&self.sharing.condvar))
+            (thread_added_for(Some(code)) && gval(&queue)@ == acq(&queue)@)
+            || (gval(&queue)@ == acq(&queue)@.push(code) && notified(&self.sharing.condvar))
         ); }
 //@endfn
 
